@@ -6,9 +6,14 @@
   influence the next document, so by induction a reused instance behaves like a new one on
   EVERY history.  Other components: mirror + correspondence (depth hooks at every document
   boundary) + oracle (probe on reused vs fresh instance).
+
+  UBJSON ENCODER (namespace `SF.PropsUbj.C17`): every document (any tree, also with
+  extended events) restores the length stack; after ANY history of documents ANY probe stream
+  yields the bytes, result and stack of a new encoder.
 -/
 import SF.Proofs.CborEnc
 import SF.Props.C05
+import SF.Proofs.UbjEncTop
 namespace SF.Props.C17
 open SF SF.Cbor SF.Cbor.Cst
 
@@ -76,3 +81,41 @@ theorem cbor_parser_reuse (hist : List Item) (probe : Item) (hh : okList hist = 
   simp [Parse.events, Parse.idle, hev, eventsList]
 
 end SF.Props.C17
+
+/-! ## UBJSON encoder (SF/Ubjson/Enc.lean; proofs SF/Proofs/Ubj*.lean) -/
+
+namespace SF.PropsUbj.C17
+open SF SF.Ubjson SF.Ubjson.Enc SF.Ubjson.Wire
+open SF.Cbor.Enc (small)
+open SF.Props.UbjEnc
+
+/-- a complete document leaves the length stack as it found it and appends exactly its bytes -/
+theorem ubj_encoder_doc_stack (t : ETree) (s : Enc) (hf : s.w.failFrom = none) :
+    (run s (t.events.map XEv.ev)).1.length = s.length ∧
+      (run s (t.events.map XEv.ev)).1.w.out = s.w.out ++ (chunks t).flatten :=
+  SF.Props.UbjEnc.ubj_encoder_doc_stack t s hf
+
+/-- C17 for the UBJSON encoder: ANY history of documents followed by ANY probe stream: the
+history leaves the encoder idle, and the probe's result, final stack and bytes on the reused
+encoder are those on a new one -/
+theorem ubj_encoder_reuse (hist : List ETree) (probe : List XEv) :
+    ∃ (pre : Bytes) (s : Enc),
+      run {} ((ETree.eventsList hist).map XEv.ev) = (s, none) ∧ s.w.out = pre ∧
+      s.length = ({} : Enc).length ∧
+      (run s probe).2 = (run {} probe).2 ∧
+      (run s probe).1.length = (run {} probe).1.length ∧
+      (run s probe).1.w.out = pre ++ (run {} probe).1.w.out :=
+  SF.Props.UbjEnc.ubj_encoder_reuse hist probe
+
+/-- … also for histories of documents that mix basic and extended events (typed arrays / maps,
+by-reference strings and keys) -/
+theorem ubj_encoder_reuse_ext (hist : List XTree) (hh : XTree.leavesOkList hist = true) (probe : List XEv) :
+    ∃ (pre : Bytes) (s : Enc),
+      run {} (XTree.eventsList hist) = (s, none) ∧ s.w.out = pre ∧
+      s.length = ({} : Enc).length ∧
+      (run s probe).2 = (run {} probe).2 ∧
+      (run s probe).1.length = (run {} probe).1.length ∧
+      (run s probe).1.w.out = pre ++ (run {} probe).1.w.out :=
+  SF.Props.UbjEnc.ubj_encoder_reuse_ext hist hh probe
+
+end SF.PropsUbj.C17
